@@ -177,6 +177,8 @@ Section RP.
   | OCallback (q : params) (tok_ok apply : bool)  (* browser calls the callback; apply = it processes the response's cookies *)
   | OSet (n : string) (c : cval)                  (* something else writes a cookie into the jar *)
   | ODel (n : string)                             (* ... or removes one (also: a late response's deletion) *)
+  | OStartQ (s v : string) (lq : params)          (* as OStart, the login request itself carrying query parameters lq
+                                                     (a crafted login link: code_challenge=..., state=..., client_id=...) *)
   | OApi (label : string).                        (* the application uses the same RP value for something else
                                                      (rp.ClientCredentials, RefreshTokens, Userinfo, EndSession,
                                                      RevokeToken, DeviceAuthorization, CodeExchange,
@@ -192,6 +194,7 @@ Section RP.
   Definition respond (cfg : config) (j : jar) (o : op) : event :=
     match o with
     | OStart s v => start_login cfg s v
+    | OStartQ s v _ => start_login cfg s v   (* the login request's own parameters are not read *)
     | OStartFail _ => EvOther          (* unauthorized handler, no cookie, no redirect *)
     | OCallback q ok _ => callback cfg j q ok
     | OSet _ _ | ODel _ => EvNone
@@ -208,7 +211,7 @@ Section RP.
   (* the browser: how the jar changes given the operation and the RP's response *)
   Definition jar_after (j : jar) (o : op) (ev : event) : jar :=
     match o with
-    | OStart _ _ | OStartFail _ => jar_apply j (ev_cookies ev)
+    | OStart _ _ | OStartFail _ | OStartQ _ _ _ => jar_apply j (ev_cookies ev)
     | OCallback _ _ apply => if apply then jar_apply j (ev_cookies ev) else j
     | OSet n c => jar_set n c j
     | ODel n => jar_del n j
